@@ -555,3 +555,8 @@ LEVEL_TEXT = ("Decides the digest merge/verify rules (contiguity, epoch successi
               "the history-level clauses (roots after reorgs, proofs, filters) depend on RocksDB state and a third-party MMR crate and are outside.")
 LEVEL_NOTE = "Claim = header-digest algebra only. MMR over chain histories, proof serving and block filters are not covered."
 TECHNIQUE = "symbolic execution of rustc MIR -> SMT (cvc5 + z3) with call-site observation of builder/hash calls"
+
+# ---- extended claim (session 3)
+BOUNDS = dict(BOUNDS, m5="build_filter_data: 1 transaction, 0..2 inputs, 0..2 outputs; builder scenarios on a 5-block chain with a detached block", m6="the three light-client proof servers: coroutine bodies executed up to the point where the last block is loaded")
+LEVEL_TEXT = LEVEL_TEXT + " m5: block filter covers every output and spent-input lock/type script hash, filter hash = H(parent filter hash || H(data)), stored under the block hash, the builder chains each (re)built main-chain block from its parent's filter hash also after a reorganisation; m6: light-client proofs are assembled only for a last_hash on the snapshot's main chain, otherwise the tip state is sent."
+LEVEL_NOTE = "Claim = header-digest algebra, chain-root MMR along an attached branch, VerifiableHeader, block-filter construction and hash chain, light-client main-chain guard. MMR node arithmetic (third-party), proof contents, GCS encoding: outside."
